@@ -173,7 +173,7 @@ func runWriteFail(c WriteFailCase, rec *h.Rec) error {
 	return nil
 }
 
-var propWriteFail = h.NewProp("TestPropWriteFail", h.Budget{Quick: 160, Thorough: 4000}, genWriteFail, runWriteFail)
+var propWriteFail = h.NewProp("TestPropWriteFail", h.Budget{Quick: 100, Thorough: 3000}, genWriteFail, runWriteFail)
 
 func TestPropWriteFail(t *testing.T) { propWriteFail.Check(t) }
 
@@ -293,7 +293,7 @@ func runHistory(c HistoryCase, rec *h.Rec) error {
 	return nil
 }
 
-var propHistory = h.NewProp("TestPropHistory", h.Budget{Quick: 1000, Thorough: 30000}, genHistory, runHistory)
+var propHistory = h.NewProp("TestPropHistory", h.Budget{Quick: 600, Thorough: 20000}, genHistory, runHistory)
 
 func TestPropHistory(t *testing.T) { propHistory.Check(t) }
 
@@ -437,7 +437,7 @@ func rawLibEqual(a, b any) (eq bool, ok bool) {
 	return m.Call([]reflect.Value{arg})[0].Bool(), true
 }
 
-var propEqual = h.NewProp("TestPropEqual", h.Budget{Quick: 1500, Thorough: 30000}, genEqual, runEqual)
+var propEqual = h.NewProp("TestPropEqual", h.Budget{Quick: 800, Thorough: 20000}, genEqual, runEqual)
 
 func TestPropEqual(t *testing.T) { propEqual.Check(t) }
 
